@@ -278,6 +278,17 @@ def check(ctx):
     ncases = ctx.scale(220, 2500)
     for k in range(ncases):
         case = gen_case(rng, ctx.quick)
+        if k < (3 if ctx.quick else 8):
+            # an estimator that is saved early (check-pointed during or just after its warm-up) and then carries on for hundreds of
+            # observations: what was restored is an estimator like any other
+            n = rng.choice([140, 300]) if (ctx.quick or k < 7) else 33000
+            shape = rng.choice([(), (2,)])
+            ncomp = int(np.prod(shape)) if shape else 1
+            fam = rng.choice(p2lib.FAMILIES)
+            case = dict(spec=p2lib.gen_grid(rng), family=fam, n=n, shape=list(shape),
+                        cols=[p2lib.gen_seq(rng, n, fam) for _ in range(ncomp)],
+                        roundtrip=[[rng.choice([1, 2, 4, 9, 30, 100]), rng.choice(['pickle', 'dill', 'deepcopy', 'copy'])]], rejects=[])
+            ctx.count('saved_early_then_long')
         ok, adjusted = run_case(ctx, case, rng, lines, posts)
         tied = any(len(set(c)) < len(c) for c in case['cols'])
         ctx.case((case['spec'], case['cols']), tied and adjusted, sample=small(case) if case['n'] <= 12 else None)
